@@ -129,6 +129,10 @@ def mk_atom(ex, tag):
     for n in ("slot", "subslot", "slot_operator", "repo_id"):
         ex.assume(Implies(Not(SBool(flds[n].isnone)), flds[n].val.length() > 0))
     ex.assume(Implies(flds["blocks_strongly"], flds["blocks"]))
+    import pkgcore.ebuild.cpv as C
+    flds["fullver"] = KStr.fresh("fullver" + tag)
+    # the parsed CPV the atom proxies its category/package/version attributes from
+    flds["_cpv"] = SObj(C.CPV, {k: flds[k] for k in ("category", "package", "cpvstr", "version", "revision", "fullver")})
     return SObj(atom, flds)
 
 
@@ -137,14 +141,19 @@ def atom_eq_spec(it, a, b):
     from pkgcore.ebuild.atom import atom
     parts = []
     for n in atom.__attr_comparison__:
+        if n not in a.fields:
+            raise KeyError(f"atom.__attr_comparison__ names {n!r}, which the contract's atom view does not model")
         r = models.eq(it, a.fields[n], b.fields[n])
-        parts.append(as_bool(r))
+        parts.append(as_bool(r) if not isinstance(r, bool) else SBool(z3.BoolVal(r)))
     return And(*parts)
 
 
 def atom_invariant(ex, a, b):
-    """the spelling cpvstr determines category/package and, with equal spelling, ver_cmp == 0"""
+    """the spelling cpvstr determines category/package/full version text and, with equal spelling, ver_cmp == 0"""
     cpv_invariant(ex, a, b)
+    fa, fb = a.fields, b.fields
+    ex.assume(SBool(z3.Implies(fa["cpvstr"].t == fb["cpvstr"].t,
+                               z3.And(fa["fullver"].t == fb["fullver"].t, fa["version"].t == fb["version"].t, fa["revision"].t == fb["revision"].t))))
 
 
 def hash_expr(it, obj):
